@@ -38,7 +38,8 @@ def get_angle_spec_from_float(angle: float, tol: float = 1e-4) -> List[Tuple[int
     tol : float
         Tolerance to use
     """
-    angle %= 2 * np.pi
+    # Work in double precision whatever numeric type the caller passes (np.float32, int, Fraction, ...)
+    angle = float(angle) % (2 * np.pi)
     rest = angle / np.pi
     # `rest` is in units of pi while `tol` is given in radians
     tol_pi = tol / np.pi
